@@ -106,6 +106,23 @@ def qnot(g):
     return znot(g)
 
 
+def _tagkey(tag):
+    if tag is None:
+        return None
+    if isinstance(tag, int):
+        return ("c", tag)
+    try:
+        t = z3.simplify(tag)
+        # lengths that differ by an integer constant belong to the same container family (append / slice by one)
+        if z3.is_add(t):
+            ch = [c for c in t.children() if not z3.is_int_value(c)]
+            if len(ch) == 1:
+                t = ch[0]
+        return t.get_id()
+    except Exception:
+        return None
+
+
 def znot(b):
     if isinstance(b, bool):
         return not b
@@ -133,6 +150,7 @@ class Obligation:
     path_id: str = ""
     detail: str = ""
     kind: str = "ensures"
+    props: Optional[list] = None
     model_values: Optional[dict] = None
 
 
@@ -146,10 +164,11 @@ class Path:
         self.pc: list = []
         self.ufacts: List[UFact] = []
         self.idx_terms: list = []
+        self.idx_tags: list = []
         self.idx_seen: set = set()
         self.counters: dict = {}
         self.obligations: List[Obligation] = []
-        self.npscalar: set = set()
+        self.npscalar: dict = {}  # term id -> term (the reference keeps the id from being reused)
         self.notes: list = []
         self.ghost: dict = {}
         self._solver = None
@@ -173,15 +192,17 @@ class Path:
     def func(self, base, *sorts):
         return z3.Function(self.fresh_name(base), *sorts)
 
-    def index_term(self, t):
+    def index_term(self, t, tag=None):
+        """register an index term for ground instantiation; `tag` = length of the container it indexes
+        (universal facts are instantiated only on terms of their own container, or untagged ones)"""
         if isinstance(t, int):
-            key = ("c", t)
             t = z3.IntVal(t)
-        else:
-            key = t.get_id()
+        tk = _tagkey(tag)
+        key = (t.get_id(), tk)
         if key not in self.idx_seen:
             self.idx_seen.add(key)
             self.idx_terms.append(t)
+            self.idx_tags.append(tk)
         return t
 
     # -- assumptions -----------------------------------------------------
@@ -199,7 +220,7 @@ class Path:
             return
         if isinstance(cond, QAny):
             w = self.int("wit")
-            self.index_term(w)
+            self.index_term(w, cond.n)
             self.pc.append(z3.And(w >= cond.lo, w < cond.n))
             self.assume(cond.fn(w))
             return
@@ -286,12 +307,14 @@ class Path:
         """ground instances of all universal facts on all index terms (memoised per (fact, terms))"""
         cache = self.__dict__.setdefault("_inst_cache", {})
         out = []
-        terms = list(self.idx_terms) + list(extra_terms)
+        terms = list(zip(self.idx_terms, self.idx_tags))
         for ui, uf in enumerate(self.ufacts):
+            tks = [_tagkey(b[1]) for b in uf.bounds]
+            per_pos = [[t for (t, tg) in terms if tg is None or tk is None or tg == tk] for tk in tks]
             if uf.arity == 1:
-                combos = [(t,) for t in terms]
+                combos = [(t,) for t in per_pos[0]]
             else:
-                combos = itertools.product(terms, repeat=uf.arity)
+                combos = itertools.product(*per_pos)
             for c in combos:
                 key = (ui,) + tuple(t.get_id() for t in c)
                 if key in cache:
@@ -322,15 +345,44 @@ class Path:
     def path_id(self):
         return "".join("T" if d else "F" for d in self.decisions) or "-"
 
-    def prove(self, goal, name, kind="ensures", desc=""):
+    def prove(self, goal, name, kind="ensures", desc="", props=None):
         """Emit + discharge the obligation  pc AND ufacts ==> goal  at this point of the path."""
-        ob = Obligation(name=name, goal_desc=desc or _short(goal), kind=kind, path_id=self.path_id())
+        ob = Obligation(name=name, goal_desc=desc, kind=kind, path_id=self.path_id(), props=props)
         self.obligations.append(ob)
+        if name in self.ex.shared.setdefault("failed_sites", set()):
+            return False  # this site already failed on another path: one counter-model is enough
+        if isinstance(goal, bool):
+            # structural (python-level) obligation: decided without the solver
+            ob.status = "discharged" if goal else "failed"
+            ob.backend = "structural"
+            if not ob.goal_desc:
+                ob.goal_desc = "structural check"
+            if not goal:
+                self.ex.shared["failed_sites"].add(name)
+            self.ex.record(ob)
+            return goal
+        # the state at this point is a function of the decision prefix: an obligation already decided for the
+        # same (site, prefix, occurrence) on an earlier replay is not discharged again
+        occ = self.counters.get(("ob", name, len(self.decisions)), 0)
+        self.counters[("ob", name, len(self.decisions))] = occ + 1
+        key = (name, tuple(self.decisions), occ)
+        memo = self.ex.shared.setdefault("proved", {})
+        if key in memo:
+            st = memo[key]
+            if st == "discharged":
+                return True
+            if st in ("failed", "unknown"):
+                return False
         t0 = time.time()
         try:
             self._discharge(ob, goal)
         finally:
             ob.time_s = time.time() - t0
+        memo[key] = ob.status
+        if ob.status == "failed":
+            self.ex.shared["failed_sites"].add(name)
+        if not ob.goal_desc and (ob.status != "discharged" or name not in self.ex.results):
+            ob.goal_desc = _short(goal)
         self.ex.record(ob)
         return ob.status == "discharged"
 
@@ -340,7 +392,7 @@ class Path:
             return z3.BoolVal(goal)
         if isinstance(goal, QAll):
             k = self.int("sk")
-            self.index_term(k)
+            self.index_term(k, goal.n)
             inner = self._goal_to_formula(goal.fn(k))
             return z3.Implies(z3.And(k >= goal.lo, k < goal.n), inner)
         if isinstance(goal, QAnd):
@@ -349,7 +401,8 @@ class Path:
             return z3.Or(*[self._goal_to_formula(p) for p in goal.parts])
         if isinstance(goal, QAny):
             # existential goal: try witnesses among the known index terms
-            cands = list(self.idx_terms)
+            gk = _tagkey(goal.n)
+            cands = [t for t, tg in zip(self.idx_terms, self.idx_tags) if tg is None or gk is None or tg == gk]
             if not cands:
                 return z3.BoolVal(False)
             return z3.Or(*[z3.And(t >= goal.lo, t < goal.n, zbool(goal.fn(t))) for t in cands])
@@ -357,6 +410,7 @@ class Path:
 
     def _discharge(self, ob: Obligation, goal):
         saved_terms = list(self.idx_terms)
+        saved_tags = list(self.idx_tags)
         saved_seen = set(self.idx_seen)
         try:
             f = self._goal_to_formula(goal)
@@ -368,6 +422,7 @@ class Path:
             extra = [i for i in self._instances()]
         finally:
             self.idx_terms = saved_terms
+            self.idx_tags = saved_tags
             self.idx_seen = saved_seen
         s = self._solver_synced()
         have = self._inc["ninst"]
@@ -392,11 +447,16 @@ class Path:
     def cover(self, name):
         """Vacuity guard: the path condition reaching this point must be satisfiable."""
         ob = Obligation(name=name, goal_desc="reachable (pc satisfiable)", kind="cover", path_id=self.path_id())
+        memo = self.ex.shared.setdefault("covered", set())
+        if name in memo:
+            return True
         s = self._solver_synced()
         s.set("timeout", min(self.ex.timeout_ms, 3000))
         r = s.check()
         ob.backend = "z3"
         ob.status = "discharged" if r == z3.sat else ("failed" if r == z3.unsat else "unknown")
+        if ob.status == "discharged":
+            memo.add(name)
         self.ex.record(ob)
         return ob.status == "discharged"
 
@@ -440,6 +500,29 @@ def solve_valid_inc(s, goal, timeout_ms):
         md = _model_to_dict(m)
         ms = "; ".join(f"{k}={v}" for k, v in sorted(md.items()) if len(v) < 80)[:2000]
         return "invalid", "z3", (ms, md)
+    # cone-of-influence slice on a fresh (non-incremental) solver: hypotheses that share no uninterpreted symbol
+    # (transitively) with the goal are dropped.  unsat(cone) => valid.  sat(cone) => the counter-model extends to
+    # the full hypothesis set whenever the dropped part is satisfiable on its own (it is the rest of a path
+    # condition that the branch pruning did not refute).
+    asserts = list(s.assertions())
+    cone, rest = cone_of_influence(asserts[:-1], asserts[-1])
+    s2 = z3.Solver()
+    s2.set("timeout", timeout_ms)
+    for a in cone:
+        s2.add(a)
+    s2.add(asserts[-1])
+    r = s2.check()
+    if r == z3.unsat:
+        return "valid", "z3-cone", None
+    if r == z3.sat:
+        md = _model_to_dict(s2.model())
+        ms = "; ".join(f"{k}={v}" for k, v in sorted(md.items()) if len(v) < 80)[:2000]
+        s3 = z3.Solver()
+        s3.set("timeout", min(timeout_ms, 5000))
+        for a in rest:
+            s3.add(a)
+        if s3.check() != z3.unsat:
+            return "invalid", "z3-cone", (ms, md)
     try:
         r2 = _cvc5_check(s.to_smt2(), timeout_ms)
     except Exception:
@@ -449,6 +532,53 @@ def solve_valid_inc(s, goal, timeout_ms):
     if r2 == "sat":
         return "invalid", "cvc5", ("(cvc5 sat; no model extracted)", {})
     return "unknown", "z3+cvc5", None
+
+
+def _symbols(e, cache):
+    k = e.get_id()
+    if k in cache:
+        return cache[k][1]
+    out = set()
+    stack = [e]
+    seen = set()
+    while stack:
+        t = stack.pop()
+        i = t.get_id()
+        if i in seen:
+            continue
+        seen.add(i)
+        if z3.is_quantifier(t):
+            stack.append(t.body())
+            continue
+        if z3.is_app(t):
+            d = t.decl()
+            if d.kind() == z3.Z3_OP_UNINTERPRETED:
+                out.add(d.name())
+            stack.extend(t.children())
+    cache[k] = (e, out)  # keep the term alive: z3 reuses ids of freed terms
+    return out
+
+
+_SYM_CACHE: dict = {}
+
+
+def cone_of_influence(hyps, neg_goal):
+    goal_syms = set(_symbols(neg_goal, _SYM_CACHE))
+    hs = [(h, _symbols(h, _SYM_CACHE)) for h in hyps]
+    cone_syms = set(goal_syms)
+    in_cone = [False] * len(hs)
+    changed = True
+    while changed:
+        changed = False
+        for i, (h, sy) in enumerate(hs):
+            if not in_cone[i] and (sy & cone_syms):
+                in_cone[i] = True
+                if not sy <= cone_syms:
+                    cone_syms |= sy
+                changed = True
+    cone = [h for i, (h, _) in enumerate(hs) if in_cone[i]]
+    rest = [h for i, (h, sy) in enumerate(hs) if not in_cone[i]]
+    return cone, rest
 
 
 def solve_valid(hyps, goal, timeout_ms):
@@ -508,6 +638,7 @@ class Explorer:
         self.paths = 0
         self.infeasible = 0
         self.order: list = []
+        self.shared: dict = {}
 
     def push(self, decisions):
         self.work.append(list(decisions))
